@@ -1389,7 +1389,7 @@ def run(ctx):
     # ---------------------------------------------------------------- 5. ORCID iD check character of author ids
     # (spec/metadata/Orcid.tla; the ids end up in _audit_author.id_orcid)
     from .. import lib_orcid
-    lib_orcid.run(ctx, prefix='orcid')
+    ctx.run_growth(lambda c: lib_orcid.run(c, prefix='orcid'), 'lib_orcid')
 
 
 META = {
